@@ -388,7 +388,44 @@ func hsDrive(w *hsWorld, rnd *rand.Rand, steps, tr int, res *vResult) {
 	nodes := []*vNode{A, B, M, X, P, S}
 	profile := tr % 4 // 0 mixed, 1 replay heavy, 2 lossy (retries, give-up, queue), 3 simultaneous initiators
 	tag := 0
-	if profile == 1 {
+	if profile == 1 && (tr/4)%2 == 1 {
+		// rotation, then replay (schedule found by TLC as the shortest way to a primary that is OLDER than another tunnel
+		// the node still holds): B's first stage 1 is held back until B has given up and started over; A meanwhile gets a
+		// tunnel from B's second stage 1 and one as initiator; then the old stage 1 arrives (accepted: the primary is an
+		// initiator-side tunnel) and finally the second stage 1 is delivered again -- its tunnel is still held.
+		take := func(to *vNode, typ header.MessageType, counter uint64) *vDatagram {
+			for k, d := range w.inflight {
+				if d.To == to.UDP && d.H.Type == typ && d.H.MessageCounter == counter {
+					w.inflight = append(w.inflight[:k], w.inflight[k+1:]...)
+					return d
+				}
+			}
+			return nil
+		}
+		w.tunSend(B, addr("10.128.0.1"), "rot-1")
+		old := take(A, header.Handshake, 1)
+		for k := 0; k < 30 && w.pendingCount(B) > 0; k++ {
+			w.tickOnce()
+		}
+		for k := len(w.inflight) - 1; k >= 0; k-- { // retransmissions of the old stage 1 are lost
+			if w.inflight[k].To == A.UDP {
+				w.inflight = append(w.inflight[:k], w.inflight[k+1:]...)
+			}
+		}
+		w.tunSend(B, addr("10.128.0.1"), "rot-2")
+		second := take(A, header.Handshake, 1)
+		w.tunSend(A, addr("10.128.0.2"), "rot-3")
+		if hs1A := take(B, header.Handshake, 1); hs1A != nil && old != nil && second != nil {
+			w.deliver(hs1A, B, hs1A.From)
+			w.deliver(second, A, second.From)
+			if hs2 := take(A, header.Handshake, 2); hs2 != nil {
+				w.deliver(hs2, A, hs2.From)
+			}
+			w.deliver(old, A, old.From)
+			w.deliver(second, A, second.From) // the replay
+			res.Hit("rotation-replay-prologue")
+		}
+	} else if profile == 1 {
 		// two sessions of one initiator created at the same instant (equal handshake times), delivered in
 		// either order: the second one is not newer than the tunnel the responder then holds
 		w.tunSend(A, addr("10.128.0.2"), "eq-1")
